@@ -14,6 +14,7 @@
 #include <exception>
 #include <functional>
 #include <iterator>
+#include <limits>
 #include <sstream>
 #include <stdexcept>
 #include <string>
@@ -77,7 +78,7 @@ namespace xtl
         template <class T, std::size_t N>
         struct fixed_small_string_storage_impl<T[N]>
         {
-            static_assert(N <= (1u << (8 * sizeof(T))), "small string");
+            static_assert(N - 1 <= std::numeric_limits<typename std::make_unsigned<T>::type>::max(), "small string");
 
             fixed_small_string_storage_impl()
             {
@@ -218,7 +219,7 @@ namespace xtl
         struct select_storage<buffer | store_size>
         {
             template <class T, std::size_t N>
-            using type = typename select_fixed_storage<T[N + 1], N < (1u << (8 * sizeof(T)))>::type;
+            using type = typename select_fixed_storage<T[N + 1], N <= std::numeric_limits<typename std::make_unsigned<T>::type>::max()>::type;
         };
 
         template <>
